@@ -99,7 +99,10 @@ Eval(n, cur, root, env) ==
          ELSE (CASE n.pk = "list" ->
                      IF v.t # "arr" THEN Null ELSE Project(n.r, v.a, v.u, root, env)
                 [] n.pk = "flat" ->
-                     IF v.t # "arr" THEN Null ELSE Project(n.r, Flat1(v.a), v.u, root, env)
+                     IF v.t # "arr" THEN Null
+                     ELSE Project(n.r, Flat1(v.a),
+                                  v.u \/ \E i \in 1..Len(v.a) : v.a[i].t = "arr" /\ v.a[i].u /\ Len(v.a[i].a) > 1,
+                                  root, env)
                 [] n.pk = "obj" ->
                      IF v.t # "obj" THEN Null ELSE Project(n.r, ObjVals(v), TRUE, root, env)
                 [] n.pk = "filter" ->
@@ -149,12 +152,14 @@ Eval(n, cur, root, env) ==
                       ELSE IF v.t = "num" THEN v
                       ELSE Open
     [] n.k = "mslist" ->
-         \* on a null current node the corpus pins only the single-element form
-         IF cur = Null /\ Len(n.xs) > 1 THEN Open
+         \* a multi-select on a null current node: the corpus pins  `null`|[@]
+         \* to [null] but  null.[..]  to null; implementations differ on every
+         \* other form, so it is left open (property C17 excludes it as well)
+         IF cur = Null THEN Open
          ELSE LET os == EvalSeq2(n.xs, cur, root, env)  g == Gather(os) IN
               IF g # Null THEN g ELSE Arr(os)
     [] n.k = "mshash" ->
-         IF cur = Null /\ Len(n.kvs) > 1 THEN Open
+         IF cur = Null THEN Open
          ELSE LET os == EvalSeq2([i \in 1..Len(n.kvs) |-> n.kvs[i].x], cur, root, env)
                   g == Gather(os) IN
               IF g # Null THEN g
